@@ -9,6 +9,7 @@ import (
 	"strings"
 
 	"github.com/reactivego/ivg/decode"
+	"verif/gen"
 	"verif/mc"
 	"verif/rec"
 	"verif/ref"
@@ -37,6 +38,9 @@ func init() {
 		Post:   postDistinct(100),
 	})
 }
+
+// c11Other: a small valid graphic (its prefix without the last 3 bytes is invalid)
+var c11Other = append(append([]byte{}, gen.Magic...), 0x00, 0x05, 0x9b, 0x30, 0x66, 0x07, 0x80, 0xc0, 0x70, 0x90, 0x01, 0x84, 0x86, 0x88, 0x8a, 0xe3, 0x80, 0x7e, 0x40, 0x82, 0x84, 0xe1)
 
 type c11State struct {
 	rd  rec.Dest
@@ -149,6 +153,17 @@ func c11Check(w *mc.W, st *c11State, b []byte, unit string) {
 	if pnc, stack := guard(func() { text, serr = decode.Disassemble(b) }); pnc != nil {
 		fail("panic:disassemble:"+panicKey(stack), fmt.Sprintf("Disassemble panicked: %v", pnc))
 		return
+	}
+	// the listing belongs to the caller: later Disassemble calls (of a valid and of an invalid
+	// input) leave it as it was returned
+	if text != nil {
+		keep := append([]byte(nil), text...)
+		decode.Disassemble(c11Other)
+		decode.Disassemble(c11Other[:len(c11Other)-3])
+		if !bytes.Equal(text, keep) {
+			fail("listing-overwritten", "the listing returned for this input was modified by later Disassemble calls on other inputs")
+			return
+		}
 	}
 	h := mc.NewHasher()
 	if (serr == nil) != (derr == nil) || (serr != nil && serr != derr) {
